@@ -210,3 +210,33 @@ def compare(impl, model, check_line=False):
     if set(isyms) != set(msyms):
         return f"session symbols: implementation {sorted(isyms)}, model {sorted(msyms)}"
     return None
+
+
+# ------------------------------------------------------------------ the repository's own library source inside the model evaluator
+
+def lib_setup_request(legacy=True, secure=True, fuel=300000):
+    """one request that makes the driver build the REAL base environment: constants + bind_native, then the bundled base.ckl /
+    legacy.ckl evaluated by the model evaluator, every bundled module handed over as the AST of its current source text"""
+    known, eff, _ = native_tables(legacy)
+    s_ = lambda xs: "".join(" s:" + proto.enc_str(x) for x in xs)   # noqa
+    moddir = os.path.join(core.REPO, "src", "ckl", "modules")
+    ms = []
+    for n in sorted(os.listdir(moddir)):
+        if n.endswith(".ckl"):
+            src = open(os.path.join(moddir, n), encoding="utf-8").read()
+            ms.append(f"(s:{proto.enc_str(n)} bundled {ast_or_syn(src, 'mod:' + n[:-4])})")
+    return (f"(libsetup (flags {'secure' if secure else 'insecure'} {fuel} {'legacy' if legacy else 'modules'}) (mods" + "".join(" " + m for m in ms)
+            + f") (eff{s_(eff)}) (known{s_(known)}))")
+
+
+def lib_session_request(progs):
+    return "(libsession" + "".join(f" (prog {ast_or_syn(p)})" for p in progs) + ")"
+
+
+def run_lib_sessions(programs, legacy=True, secure=True, fuel=300000):
+    """programs: list of lists of program texts (one session each).  Returns per session the parsed model outcomes, or None
+    when the base environment could not be built in the model (then the first element of the result is the driver's reason)"""
+    resp = core.run_driver([lib_setup_request(legacy, secure, fuel)] + [lib_session_request(ps) for ps in programs])
+    if resp[0] != "(libsetup ok)":
+        return None, resp[0]
+    return [parse_model_session(r)[0] for r in resp[1:]], None
